@@ -1,6 +1,6 @@
 (* Chain.v — stacking adapters (C12).  The output of stage a is the input of stage b: every diff a
    emits is handed to b's step function, in order. *)
-From EB Require Import Diff AdapterCore Head Tail Skip.
+From EB Require Import Diff AdapterCore PollLoop Head Tail Skip.
 
 Section Compose.
 Context {A B C Sa Sb : Type}.
@@ -112,3 +112,10 @@ Definition skip_into_parts (st : skip_st A) : list A :=
   match s_count st with Some c => skeep_impl c (s_buf st) | None => [] end.
 
 End IntoParts.
+
+(* The hand-over of an adapter that is in use: the poll-loop state (PollLoop.ustate: adapter state
+   + diffs of the current burst not handed out yet) goes on living as the stream of the next
+   stage; [keep_ready] = the parked diffs are kept (the code before the repair F9) *)
+Definition hand_over_u {B St : Type} (keep_ready : bool) (into_parts : St -> list B)
+           (s : ustate (B:=B) (St:=St)) : ustate (B:=B) (St:=St) * list B :=
+  ({| u_st := u_st s; u_ready := if keep_ready then u_ready s else [] |}, into_parts (u_st s)).
